@@ -18,6 +18,7 @@ LEVEL = 'proof'
 TIMEOUT_S = 30.0
 
 FNAMES = ['a', 'a_', 'a__', 'b', 'x']        # field names: prefixes / '_'-suffixed variants of one another
+RNAMES = ['a', 'a_', 'a__', 'b', 'b_']       # rename alphabet of generator (A2): two families of '_' variants
 DNAMES = ['d', 'd_', 'e']                    # dataframe names
 TYPES = {0: 'numeric,int32', 1: 'indexedstring', 2: 'fixedstring,4', 3: 'categorical,int8', 4: 'timestamp'}
 TAGS = {'create': 1, 'setitem': 2, 'add': 3, 'delitem': 4, 'drop': 5, 'delete_field': 6, 'rename': 7, 'fcopy': 8,
@@ -27,18 +28,29 @@ EXC_CODE = {'ValueError': 1, 'TypeError': 2, 'IndexError': 3, 'KeyError': 4, 'Ov
 
 RULE = ('exhaustive small scope on real (in-memory) HDF5 files: (A) every rename mapping (each column kept or sent to one '
         'of {a,a_,a__,b,x}, plus unknown keys) on column sets of size 2..4 drawn from {a,a_,a__,b} in several orders; '
+        '(A2) creation order x mapping: every ordered choice of 3 columns from {a,a_,a__,b,b_} (60 creation orders) x every '
+        'mapping of all three onto distinct names of that alphabet (60: permutations, cycles, chains, identities), dict order '
+        'rotated; 4 columns x 4 entries sampled (1200; 4000 when the tree under test differs from the recorded one; all 14400 '
+        'in the thorough tier); 4-5 columns with >= 3 entries followed by the inverse mapping, sampled; '
+        '(F) dataframe object identity: 5 frame states (never had a field / one field / emptied again / made by '
+        'require_dataframe / copied then emptied) x 16 dataset-level operations that look a frame up or hand one back x 5 '
+        'field-level continuations, run through the dataframe handle the caller kept and through ds[name] alternately, and '
+        'all pairs of those 16 operations per state; '
         '(B) every single operation with every name combination (5 field names x 5 frame references over two datasets) '
         'from two prepared states; (C) every pair of operations over a medium alphabet; (D) every triple over a small '
         'alphabet; then seeded random histories of length 4..9.  HDF5-backed cases cost ~5-10 ms each, which sizes '
-        'the bounds.  Every prefix of a history is itself checked (verdicts after every step).  Non-trivial = the '
+        'the bounds.  Every prefix of a history is itself checked (verdicts after every step, the identity verdict - a name '
+        'served before and after a step is served by the same object, and create/require_dataframe return the served object - '
+        'included; the harness keeps the first handle it obtained for every live dataframe).  Non-trivial = the '
         'history reaches a planted feature other than a plain lookup failure.')
 EXHAUSTIVE = {'quick': True, 'thorough': True}
 TRUSTED = ['h5py/HDF5 link semantics as modelled in Catalogue.v (create_group / move / del on a group; path of an open '
            'object follows H5Lmove, is None once unlinked) - exercised by this correspondence, not proved',
            'Python dict / OrderedDict insertion-order semantics (d_set / d_del in Catalogue.v)',
            'field payload I/O (data.write / data[:]) is the identity on the small integer payloads used']
-ASSUMPTIONS = ['one Session, each file opened once; operations address frames and fields by name (no stale DataFrame '
-               'objects are operated on); names do not contain "/" and are not "trash"',
+ASSUMPTIONS = ['one Session, each file opened once; operations address frames by ds[name] or by the first handle obtained for '
+               'a frame that is still served (handles of dropped frames are not operated on) and fields by name; names do not '
+               'contain "/" and are not "trash"',
                'field handles observed are those ever present in a catalogue']
 TECHNIQUE = ('Coq proof (state-machine invariant over a Gallina model of the dual Python/HDF5 catalogue) + exhaustive '
              'short-history differential correspondence against the real code on real HDF5 files')
@@ -48,7 +60,11 @@ LEVEL_TEXT = ('Theorems in coq/Props/C15.v prove, for all histories (any length,
               'reachable state), that a reopen finds the same types and data, that no operation changes the type or data '
               'of an existing field, that rename is simultaneous substitution or no change at all (the two passes of h5 '
               'moves cannot fail after the clash check; get_unique_name terminates), that handles follow a rename and '
-              'that a moved handle is invalid; the model is tied to the code by running both on the same generated '
+              'that a moved handle is invalid, that rename returns exactly when its keys are distinct columns and the resulting '
+              'names are distinct - whatever the creation order of the columns (every permutation mapping is carried out) - and '
+              'that no operation re-binds a dataframe name that stays bound to another object (require_dataframe and lookups '
+              'never change a binding and hand back the catalogued object, empty frames included); the model is tied to the code '
+              'by running both on the same generated '
               'histories on real HDF5 files and comparing every intermediate observation.')
 LEVEL_NOTE = ('Trusted: Coq kernel, extraction, harness, the h5py link semantics written into the model. The code as '
               'found is refuted by vm_compute witnesses (F-C15a, F-C15b) replayed on the real code. The observation-level '
@@ -177,16 +193,20 @@ def _dec_view(v):
     return sorted([_st(n), sorted([_st(fn), t, dat] for fn, t, dat in l)] for n, l in v)
 
 
+def _dec_ident(io):
+    return [[[_st(k), ([pl[0], _st(pl[1])] if pl else [])] for k, pl in l] for l in io]
+
+
 def from_val(case, v):
     steps, final, start = v
     res = {'start': _dec_obs(start),
-           'steps': [[code, _dec_obs(o), [bool(b) for b in fl]] for code, o, fl in steps],
+           'steps': [[code, _dec_obs(o), [bool(b) for b in fl], _dec_ident(io)] for code, o, fl, io in steps],
            'final': [[_dec_view(a), _dec_view(b), bool(ok)] for a, b, ok in final]}
     return res, 'SPEC'
 
 
 def _held_by_property(r):
-    return (isinstance(r, dict) and 'steps' in r and all(all(fl) for _, _, fl in r['steps'])
+    return (isinstance(r, dict) and 'steps' in r and all(all(st[2]) for st in r['steps'])
             and all(ok for _, _, ok in r['final']))
 
 
@@ -293,6 +313,18 @@ def _verdicts(op, code, o, o2):
     return [chk_inv(o2), chk_data(o, o2), chk_rename(op, ok, o, o2), chk_move(op, ok, o, o2)]
 
 
+def chk_ident(before, io):
+    """Spec/CatalogueIdentSpec.v chk_ident: a name a dataset served before the step and serves after it is served by
+    the SAME object (io: per dataset [[name, place]], place = where that object was served before the step)."""
+    if len(before) != len(io):
+        return False
+    for i, (bk, l) in enumerate(zip(before, io)):
+        for k, pl in l:
+            if k in bk and pl != [i, k]:
+                return False
+    return True
+
+
 # ----------------------------------------------------------------------------------------- the real code
 def _type_code(ft):
     for k, v in TYPES.items():
@@ -350,9 +382,46 @@ def _create(df, n, t, dat):
     return f
 
 
-def _apply(op, dss):
+class _Frames:
+    """dss[i][d] as the caller of the library writes it: either a fresh lookup ds[name] or the handle the caller kept
+    from the first time it obtained that dataframe (return value of create_dataframe / require_dataframe, or ds[name])"""
+    def __init__(self, dss, handles=None):
+        self.dss, self.handles = dss, handles
+
+    def __getitem__(self, i):
+        return _FramesOf(self.dss[i], i, self.handles)
+
+
+class _FramesOf:
+    def __init__(self, ds, i, handles):
+        self.ds, self.i, self.handles = ds, i, handles
+
+    def __getitem__(self, d):
+        if self.handles is not None:
+            for (j, k0), obj in self.handles:
+                if j == self.i and k0 == d:
+                    return obj
+        return self.ds[d]
+
+
+def _apply(op, rdss, frames=None):
+    """run one operation; dataframes are addressed through `frames` (default: ds[name]).  Returns (i, name, object) when
+    the operation hands a dataframe object back to its caller."""
     io, np, h5py, Session, edf, eds = _ex
+    dss = frames if frames is not None else rdss
     k = op[0]
+    if k in ('create_df', 'create_df_from', 'require_df'):
+        i, d = op[1], op[2]
+        if k == 'create_df':
+            r = rdss[i].create_dataframe(d)
+        elif k == 'require_df':
+            r = rdss[i].require_dataframe(d)
+        else:
+            r = rdss[i].create_dataframe(d, dataframe=dss[op[3]][op[4]])
+        return (i, d, r)
+    if k in ('ds_copy', 'ds_move', 'ds_setitem', 'ds_delitem', 'ds_drop', 'ds_delete_df'):
+        _apply_ds(op, rdss, dss)
+        return None
     if k == 'create':
         _, i, d, n, t, dat = op
         _create(dss[i][d], n, t, dat)
@@ -384,39 +453,70 @@ def _apply(op, dss):
     elif k == 'fmove':
         _, i, d, n, j, d2, n2 = op
         edf.move(dss[i][d][n], dss[j][d2], n2)
-    elif k == 'create_df':
-        _, i, d = op
-        dss[i].create_dataframe(d)
-    elif k == 'create_df_from':
-        _, i, d, j, d2 = op
-        dss[i].create_dataframe(d, dataframe=dss[j][d2])
-    elif k == 'require_df':
-        _, i, d = op
-        dss[i].require_dataframe(d)
-    elif k == 'ds_copy':
+    else:
+        raise ValueError(k)
+    return None
+
+
+def _apply_ds(op, rdss, dss):
+    """dataset-level operations: the dataset is rdss[i], a dataframe argument is dss[i][d]"""
+    io, np, h5py, Session, edf, eds = _ex
+    k = op[0]
+    if k == 'ds_copy':
         _, i, d, j, d2 = op[:5]
         style = op[5] if len(op) > 5 else 'fn'
         if style == 'method':
-            dss[j].copy(dss[i][d], d2)
+            rdss[j].copy(dss[i][d], d2)
         else:
-            eds.copy(dss[i][d], dss[j], d2)
+            eds.copy(dss[i][d], rdss[j], d2)
     elif k == 'ds_move':
         _, i, d, j, d2 = op
-        eds.move(dss[i][d], dss[j], d2)
+        eds.move(dss[i][d], rdss[j], d2)
     elif k == 'ds_setitem':
         _, j, d2, i, d = op
-        dss[j][d2] = dss[i][d]
+        rdss[j][d2] = dss[i][d]
     elif k == 'ds_delitem':
         _, i, d = op
-        del dss[i][d]
+        del rdss[i][d]
     elif k == 'ds_drop':
         _, i, d = op
-        dss[i].drop(d)
+        rdss[i].drop(d)
     elif k == 'ds_delete_df':
         _, i, d = op
-        dss[i].delete_dataframe(dss[i][d])
+        rdss[i].delete_dataframe(dss[i][d])
     else:
         raise ValueError(k)
+
+
+def _ident_obs(dss, handles, ret):
+    """Spec/CatalogueIdentSpec.v ident_obs on the real objects.  handles = [((j, name), object)] in the order the datasets
+    listed them before the step: the FIRST handle the caller obtained for every dataframe that was live then.  For every
+    name served now: the place whose kept handle IS (Python `is`) the object served now ([] = no kept handle is).
+    Returns (identobs, new handles, ok) — ok is False when an operation handed back an object that is not the one the
+    dataset serves under that name, or when the first handle handed out for a live frame lists other fields than the
+    file holds under that name."""
+    io_, new, ok = [], [], True
+    for i, ds in enumerate(dss):
+        l = []
+        for key in ds.keys():
+            df = ds[key]
+            pl, h = [], None
+            for (j, k0), obj in handles:
+                if obj is df:
+                    pl, h = [j, k0], obj
+                    break
+            if h is None:
+                h = df
+                if ret is not None and ret[0] == i and ret[1] == key:
+                    h = ret[2]                       # the first handle a caller gets is the returned object
+            if ret is not None and ret[0] == i and ret[1] == key and ret[2] is not df:
+                ok = False
+            if h is not df and (not _same_names(list(h.keys()), list(ds._file[key].keys())) or h.name != key):
+                ok = False                           # a kept handle of a live frame that no longer mirrors the file
+            l.append([key, pl])
+            new.append(((i, key), h))
+        io_.append(l)
+    return io_, new, ok
 
 
 def _register(dss, held, seen):
@@ -471,16 +571,22 @@ def run(case):
     s = Session()
     dss = [s.open_dataset(bios[0], 'w', 'ds0'), s.open_dataset(bios[1], 'w', 'ds1')]
     held, seen = [], set()
+    handles = []                 # first handle obtained for every live dataframe: [((dataset index, name), object)]
+    via = case.get('via', 'name')
     steps = []
     for op in case.get('init', []):
-        _apply(op, dss)          # the fixed preamble (checked as a history of its own); not reported
+        ret = _apply(op, dss)    # the fixed preamble (checked as a history of its own); not reported
         _register(dss, held, seen)
+        _, handles, _ = _ident_obs(dss, handles, ret)
     o = _observe(dss, held, seen)
     start = o
-    for op in case['ops']:
+    for n_op, op in enumerate(case['ops']):
         code = 0
+        ret = None
+        # the dataframe-level calls go through ds[name], or through the handle the caller kept
+        through_handle = via == 'handle' or (via == 'alt' and n_op % 2 == 0)
         try:
-            _apply(op, dss)
+            ret = _apply(op, dss, _Frames(dss, handles) if through_handle else None)
         except Exception as e:  # noqa
             code = 9
             for cls in type(e).__mro__:
@@ -488,9 +594,10 @@ def run(case):
                     code = EXC_CODE[cls.__name__]
                     break
         o2 = _observe(dss, held, seen)
-        fl = _verdicts(op, code, o, o2)
-        steps.append([code, o2, fl])
-        o = o2
+        idobs, handles2, ret_ok = _ident_obs(dss, handles, ret)
+        fl = _verdicts(op, code, o, o2) + [chk_ident([[d[0] for d in dfs] for dfs, _ in o[0]], idobs) and ret_ok]
+        steps.append([code, o2, fl, idobs])
+        o, handles = o2, handles2
         if not all(fl):
             break
     live = [_view(ds) for ds in dss]
@@ -529,15 +636,30 @@ def features(case, model):
     if len(steps) < len(ops):
         f.add('stopped-at-first-broken-verdict')
     prev = model['start']
-    for op, (code, o, fl) in zip(ops, steps):
+    if case.get('via', 'name') != 'name':
+        f.add('via:' + case['via'] + '(kept dataframe handles)')
+    for op, st in zip(ops, steps):
+        code, o, fl = st[:3]
         k = op[0]
         f.add('op:' + k + (':raises' if code else ''))
+        if len(st) > 3 and prev is not None:
+            for i, l in enumerate(st[3]):
+                for key, pl in l:
+                    if pl and pl != [i, key]:
+                        f.add('ident:same-object-under-new-name')
+            if k == 'require_df' and not code:
+                for key, na, cs, h5 in prev[0][op[1]][0]:
+                    if key == op[2]:
+                        f.add('ident:require-existing-' + ('nonempty' if cs else 'EMPTY(falsy)') + '-frame')
+            if k in ('create_df', 'create_df_from', 'require_df', 'ds_copy', 'ds_move', 'ds_setitem') and not code:
+                if any(not cs for ds_ in prev[0] for key, na, cs, h5 in ds_[0]):
+                    f.add('ident:frame-op-while-an-empty-frame-is-live')
         if k == 'create' and op[4] >= 5:
             f.add('create:invalid-arguments(F-C15d)')
         if code:
             f.add('exc:%d' % code)
         if not all(fl):
-            f.add('verdict-false:' + ','.join(n for n, b in zip(('inv', 'data', 'rename', 'move'), fl) if not b))
+            f.add('verdict-false:' + ','.join(n for n, b in zip(('inv', 'data', 'rename', 'move', 'ident'), fl) if not b))
         involved = [x for x in op[1:] if isinstance(x, int) and not isinstance(x, bool)]
         if k not in ('create',) and len(set(x for x in involved[:2])) > 1:
             f.add('cross-dataset')
@@ -557,6 +679,12 @@ def features(case, model):
                     if any(b in md and md.get(b) != a and a != b for a, b in m): f.add('rename:chain')
                     if any(b.rstrip('_') in [c.rstrip('_') for c in cols] for a, b in m): f.add('rename:underscore-variant-target')
                     if _legacy_tmp_collision(cols, m): f.add('rename:temp-name-collision-region(F-C15a)')
+                    moved = [(a, b) for a, b in m if a != b]
+                    if len(moved) >= 3: f.add('rename:>=3-columns-change-name')
+                    if len(moved) >= 3 and all(b in cols for a, b in moved): f.add('rename:permutation>=3')
+                    if len(moved) >= 3 and cols != sorted(cols): f.add('rename:>=3,creation-order-not-sorted')
+                    if len(moved) >= 3 and any(a == b + '_' or b == a + '_' or a + '_' in cols for a, b in moved):
+                        f.add('rename:>=3,underscore-variants')
                 else:
                     if all(a in cols for a, b in m): f.add('rename:clash')
                     else: f.add('rename:unknown-key')
@@ -688,6 +816,68 @@ def _gen(tier, rng):
             yield {'init': init, 'ops': [['rename', 0, 'd', m, 'dict']]}
         for m in _renames(cols[:2], FNAMES):
             yield {'init': init, 'ops': [['rename', 0, 'd', m + [['zz', 'a']], 'dict']]}
+    # (A2) creation order x mapping.  The order in which the columns were created is the order of the two passes of
+    # rename, i.e. it decides which temporary names are chosen and which names are (still) taken when a column is moved:
+    # every ordered choice of 3 columns from {a,a_,a__,b,b_} x every mapping that renames all three onto distinct names of
+    # that alphabet (permutations, cycles, chains, identities among them), exhaustively; 4 and 5 columns sampled (quick)
+    # / 4 exhaustively (thorough).  The dict lists its entries in a rotated order (dict order != column order).
+    from harness import hot
+    changed = hot.changed()
+    n3 = 0
+    for cols in itertools.permutations(RNAMES, 3):
+        init = _mk_frame(0, 'd', list(cols))
+        for tg in itertools.permutations(RNAMES, 3):
+            m = [[c, t] for c, t in zip(cols, tg)]
+            r = n3 % 3
+            n3 += 1
+            yield {'init': init, 'ops': [['rename', 0, 'd', m[r:] + m[:r], 'dict']]}
+    all4 = [(c, t) for c in itertools.permutations(RNAMES, 4) for t in itertools.permutations(RNAMES, 4)]
+    for cols, tg in (all4 if big else rng.sample(all4, 4000 if changed else 1200)):
+        m = [[c, t] for c, t in zip(cols, tg)]
+        rng.shuffle(m)
+        yield {'init': _mk_frame(0, 'd', list(cols)), 'ops': [['rename', 0, 'd', m, 'dict']]}
+    # 4-5 columns, 3.. entries, the other columns keep their names; then the inverse mapping (second use of the frame)
+    for _ in range(6000 if big else (1500 if changed else 500)):
+        k = rng.choice([4, 5, 5])
+        cols = rng.sample(RNAMES + ['x'], k)
+        ren = rng.sample(cols, rng.randint(3, k))
+        free = [n for n in RNAMES + ['x'] if n not in cols or n in ren]
+        tg = rng.sample(free, len(ren))
+        m = [[c, t] for c, t in zip(ren, tg)]
+        ops = [['rename', 0, 'd', m, 'dict']]
+        if rng.random() < 0.5:
+            back = [[t, c] for c, t in m]
+            rng.shuffle(back)
+            ops.append(['rename', 0, 'd', back, 'dict'])
+        yield {'init': _mk_frame(0, 'd', cols), 'ops': ops, 'via': rng.choice(['name', 'handle'])}
+    # (F) object identity of dataframes.  A caller keeps the object it got from create_dataframe / require_dataframe /
+    # ds[name]; the dataset must go on serving THAT object (verdict `ident` after every step), whatever the frame holds -
+    # in particular nothing (an empty HDF5DataFrame is falsy: it defines __len__).  Frame states: never had a field /
+    # one field / emptied again; every dataset-level operation that looks a frame up or hands one back; then field-level
+    # work through the kept handle and through ds[name] alternately ('alt'), or all through the handle.
+    states = [[['create_df', 0, 'd']],
+              [['create_df', 0, 'd'], ['create', 0, 'd', 'a', 0, [5, 6]]],
+              [['create_df', 0, 'd'], ['create', 0, 'd', 'a', 1, [5, 6]], ['delitem', 0, 'd', 'a']],
+              [['require_df', 0, 'd']],
+              [['create_df', 0, 'e'], ['create', 0, 'e', 'b', 3, [1]], ['create_df_from', 0, 'd', 0, 'e'], ['drop', 0, 'd', 'b']]]
+    lookups = [['require_df', 0, 'd'], ['require_df', 0, 'd_'], ['create_df', 0, 'd'], ['create_df', 0, 'd_'],
+               ['create_df_from', 0, 'd_', 0, 'd'], ['create_df_from', 0, 'd', 0, 'd'], ['ds_copy', 0, 'd', 0, 'd_', 'fn'],
+               ['ds_copy', 0, 'd', 1, 'd', 'method'], ['ds_copy', 0, 'd', 0, 'd', 'fn'], ['ds_setitem', 0, 'd_', 0, 'd'],
+               ['ds_setitem', 0, 'd', 0, 'd'], ['ds_setitem', 1, 'd', 0, 'd'], ['ds_move', 0, 'd', 0, 'd_'],
+               ['ds_move', 0, 'd', 1, 'd'], ['ds_delete_df', 0, 'd'], ['ds_drop', 0, 'd_']]
+    work = [[['create', 0, 'd', 'a_', 0, [1, 2]], ['create', 0, 'd', 'b', 2, [3]]],
+            [['create', 0, 'd', 'x', 4, [7]], ['rename', 0, 'd', [['x', 'a__']], 'single']],
+            [['create', 0, 'd', 'b', 0, [1]], ['delitem', 0, 'd', 'b']],
+            [['create', 0, 'd_', 'a', 0, [1]], ['fmove', 0, 'd_', 'a', 0, 'd', 'a__']],
+            [['require_df', 0, 'd'], ['create', 0, 'd', 'b', 1, [4]]]]
+    for st in states:
+        for lk in lookups:
+            for w in work:
+                for via in (('alt', 'handle', 'name') if big else ('alt', 'handle')):
+                    yield {'init': st, 'ops': [lk] + w + [['require_df', 0, 'd'], ['create', 0, 'd', 'a', 0, [9]]], 'via': via}
+    for st in states:
+        for l1, l2 in itertools.product(lookups, repeat=2):
+            yield {'init': st, 'ops': [l1, l2, ['create', 0, 'd', 'x', 0, [1]], ['create', 0, 'd_', 'x', 0, [2]]], 'via': 'alt'}
     # rename followed by rename (chains of renames through temporary-looking names)
     cols = ['a', 'a_', 'b']
     init = _mk_frame(0, 'd', cols)
@@ -744,7 +934,7 @@ def _gen(tier, rng):
                 if o[0] == 'create':
                     o = ['create', o[1], o[2], o[3], rng.choice([0, 1, 2, 3, 4, 0, 1, 2, 3, 4, 5, 6, 7]), [100 + k, k]]
                 ops.append(o)
-        yield {'init': init, 'ops': ops}
+        yield {'init': init, 'ops': ops, 'via': rng.choice(['name', 'name', 'handle', 'alt'])}
 
 
 def shrink(case):
